@@ -248,6 +248,16 @@ func (r *Report) Finish(verifDir string, start time.Time) int {
 		funcs = append(funcs, f)
 	}
 	sort.Strings(funcs)
+	nn := func(l []string) []string {
+		if l == nil {
+			return []string{}
+		}
+		return l
+	}
+	r.Assumptions, r.Trusted, r.Infos, r.Fatal, r.NotCovered = nn(r.Assumptions), nn(r.Trusted), nn(r.Infos), nn(r.Fatal), nn(r.NotCovered)
+	if samples == nil {
+		samples = []any{}
+	}
 	seed := 0
 	fmt.Sscan(os.Getenv("VERIF_SEED"), &seed)
 	ev := map[string]any{
